@@ -593,3 +593,29 @@ func (e *Engine) quickFeasible(x *Exec, st *State) bool { return true }
 func (e *Engine) inlinable(fn *ssa.Function) bool {
 	return fn.Blocks != nil && e.inRepo(fn) && e.loopInfo(fn) == nil
 }
+
+// typeInvFor returns the invariant pred (overlay declaration) of a named type.
+func (e *Engine) typeInvFor(t types.Type) (*ast.FuncDecl, *types.Info, string) {
+	n, ok := t.(*types.Named)
+	if !ok || n.Obj().Pkg() == nil {
+		return nil, nil, ""
+	}
+	ps := e.specs[n.Obj().Pkg().Path()]
+	if ps == nil || ps.TypeInvs == nil {
+		return nil, nil, ""
+	}
+	pn, ok := ps.TypeInvs[n.Obj().Name()]
+	if !ok {
+		return nil, nil, ""
+	}
+	for _, pr := range ps.Preds {
+		if pr.Name == pn && pr.Decl != nil {
+			for _, p := range e.pkgs {
+				if p.PkgPath == ps.Path {
+					return pr.Decl, p.TypesInfo, ps.Path
+				}
+			}
+		}
+	}
+	return nil, nil, ""
+}
